@@ -237,7 +237,7 @@ func oracleCase(f []string) string {
 		return refInt(unhex(f[1]), r[0].(bool), r[1].(*big.Int), r[2].(*big.Int))
 	case "harr", "hobj":
 		if !wellBehaved(f[2]) {
-			return "-"
+			return oracleOutOfRange(f)
 		}
 		d := unhex(f[1])
 		obj := f[0] == "hobj"
@@ -353,4 +353,40 @@ func cmdOracle() {
 		}()
 		fmt.Fprintln(w, r)
 	}
+}
+
+// oracleOutOfRange: C10, last sentence.  For a well-formed array/object whose first k calls are
+// answered well-behavedly (0 or the exact offset) and whose call k is answered (v, nil) with an
+// offset v that does not fit inside the input (v < 0 or p_k + v > len), the traversal must fail.
+func oracleOutOfRange(f []string) string {
+	d := unhex(f[1])
+	if maxDepth(d) > 10000 {
+		return "-"
+	}
+	ms, _, ok := members(d, f[0] == "hobj")
+	if !ok {
+		return "-"
+	}
+	entries := strings.Split(f[2], ",")
+	for k, e := range entries {
+		if k >= len(ms) {
+			return "-"
+		}
+		if e == "0" || e == "x" || e == "r" {
+			continue
+		}
+		v, err := strconv.ParseInt(e, 10, 64)
+		if err != nil {
+			return "-" // an error entry or something else: not this oracle's business
+		}
+		if v < 0 || int64(ms[k].p)+v > int64(len(d)) || int64(ms[k].p)+v < 0 {
+			site := "consumed"
+			if strings.IndexByte("-0123456789tfn", d[ms[k].p]) >= 0 {
+				site = "simple-value-offset-ignored"
+			}
+			return "err # site=" + site
+		}
+		return "-" // an in-range but wrong offset: behaviour unspecified
+	}
+	return "-"
 }
